@@ -91,7 +91,13 @@ def solve_all(items, timeout_ms=10000, second=True, procs=None, want_model=True)
     # pass 2: what is left, full budget; the second-opinion portfolio only for the first 24 (many open obligations at
     # once mean the code no longer fits: the verdict cannot improve beyond that, and the cost must stay bounded)
     left = [(n, t) for n, t in items if out[n][0] != 'unsat' and out[n][1] != 'skipped']
-    retry = [(n, t, timeout_ms, second and i < 24, want_model and i < 24) for i, (n, t) in enumerate(left[:48])]
+    # up to 150 open obligations (a loaded machine, slow queries) all get the full budget and the portfolio; beyond that
+    # the code no longer fits its contracts and only the first 48 are retried (24 with the portfolio)
+    if len(left) <= 150:
+        # (a busy machine makes slow queries slower: few open obligations get twice the budget)
+        retry = [(n, t, max(timeout_ms, 20000), second, want_model) for (n, t) in left]
+    else:
+        retry = [(n, t, timeout_ms, second and i < 24, want_model and i < 24) for i, (n, t) in enumerate(left[:48])]
     if retry:
         with ThreadPoolExecutor(max_workers=procs) as ex:
             for r in ex.map(_solve_text, retry):
@@ -165,7 +171,8 @@ def solve_groups(groups, timeout_ms=10000, second=True, procs=None, short=()):
             retry.append((n, t, 3000 if is_short else timeout_ms, second and not is_short, True))
     # many open obligations at once mean the code no longer fits the contract: the full budget and the
     # second-opinion solvers are spent on the first 24 only (the verdict cannot improve beyond that)
-    retry = retry[:24] + [r for r in retry[24:] if r[2] == 3000]
+    if len(retry) > 150:
+        retry = retry[:24] + [r for r in retry[24:] if r[2] == 3000]
     if retry:
         with ThreadPoolExecutor(max_workers=procs) as ex:
             for r in ex.map(_solve_text, retry):
